@@ -7,6 +7,11 @@
      (inext_no_panic, inext_inv, C10_reachable_never_panics, C10_run_never_panics);
    - the error items next can produce are the driver's errors, expression errors,
      WrongNumberOfOutputs and WrongOutputOrder (inext_error_items).
+   - Inv also holds of the state that comes with an ERROR item (inext_inv_all): for an expression
+     error that state holds the statement iterator as the failed call left it (Stmt.v, NErr) - a
+     loop that was open stays open with its frame and loop variable, nothing was popped - so a
+     caller that goes on after errors does not panic either (reachable_e_never_panics,
+     run_through_errors_never_panics).
    History: outputs[n] in extract_output_values (former site 38) used to be reachable for a driver
    whose first answer listed a matched output at a position >= the number of matched outputs; the
    crate now uses outputs.get(n) and reports WrongOutputOrder, and the model follows. *)
@@ -17,7 +22,7 @@ Local Open Scope nat_scope.
 
 Local Arguments NYield {C F W} w line it c.
 Local Arguments NDone {C F W} it c.
-Local Arguments NErr {C F W} f c.
+Local Arguments NErr {C F W} f it c.
 Local Arguments NPanic {C F W} site.
 Local Arguments NOOF {C F W}.
 Local Arguments ItNone {DE} st.
@@ -662,8 +667,13 @@ Definition post (c : ctx) (own : frame) (base : list frame) (r : nres ctx xfail 
   | NDone it' c' =>
       wf (cvars c') /\ calt c' = calt c /\ it_ok it' /\ loopvars it' = [] /\
       exists own', ext own own' /\ abs (cvars c') = own' :: base
-  | NErr (XFErr _) _ => True
-  | NErr (XFPanic _) _ => False
+  (* an evaluation error: the iterator the failed call leaves behind (Stmt.v) still holds
+     well-formed statements only and nothing was popped: every open loop still owns its
+     frame and that frame still binds the loop variable *)
+  | NErr (XFErr _) it' c' =>
+      wf (cvars c') /\ calt c' = calt c /\ it_ok it' /\
+      exists own', ext own own' /\ frames_ok it' c' own' base
+  | NErr (XFPanic _) _ _ => False
   | NPanic _ => False
   | NOOF => True
   end.
@@ -671,12 +681,16 @@ Definition post (c : ctx) (own : frame) (base : list frame) (r : nres ctx xfail 
 Lemma post_weaken : forall c c2 own own2 base r,
   calt c2 = calt c -> ext own own2 -> post c2 own2 base r -> post c own base r.
 Proof.
-  intros c c2 own own2 base r Hc He H. destruct r as [w l it' c'|it' c'|x c'|s|]; cbn [post] in *; try exact H.
+  intros c c2 own own2 base r Hc He H. destruct r as [w l it' c'|it' c'|x it' c'|s|]; cbn [post] in *; try exact H.
   - destruct H as (A & B & C & D & own' & E & F).
     split; [exact A|]. split; [congruence|]. split; [exact C|]. split; [exact D|].
     exists own'. split; [eapply ext_trans; eassumption|exact F].
   - destruct H as (A & B & C & D & own' & E & F).
     split; [exact A|]. split; [congruence|]. split; [exact C|]. split; [exact D|].
+    exists own'. split; [eapply ext_trans; eassumption|exact F].
+  - destruct x as [xe|sp]; [|exact H].
+    destruct H as (A & B & C & own' & E & F).
+    split; [exact A|]. split; [congruence|]. split; [exact C|].
     exists own'. split; [eapply ext_trans; eassumption|exact F].
 Qed.
 
@@ -737,6 +751,18 @@ Proof.
   apply assoc_None_iff in E. contradiction.
 Qed.
 
+(* an evaluation error in a state without open loops of its own (Iterate, StartWhile):
+   only the generator of the context has moved *)
+Lemma post_err_here : forall c c1 own base xe it',
+  wf (cvars c) -> cvars c1 = cvars c -> calt c1 = calt c ->
+  it_ok it' -> loopvars it' = [] -> abs (cvars c) = own :: base ->
+  post c own base (NErr (XFErr xe) it' c1).
+Proof.
+  intros c c1 own base xe it' Hw A B Hok Hl Ha. cbn [post].
+  split; [rewrite A; exact Hw|]. split; [exact B|]. split; [exact Hok|].
+  exists own. split; [apply ext_refl|]. apply frames_nil_intro; [exact Hl|rewrite A; exact Ha].
+Qed.
+
 (* SITE 20 and the evaluation sites inside the statement iterator *)
 Lemma snext_post : forall fuel it c own base,
   wf (cvars c) -> it_ok it -> frames_ok it c own base ->
@@ -755,7 +781,8 @@ Proof.
       * apply stmts_ok_let in Hrest. destruct Hrest as [We Hr].
         destruct (lift_eval G c e) as [c1 r1] eqn:E.
         destruct (lift_eval_ok _ _ _ _ We E) as (A & B & K).
-        destruct r1 as [z|[xe|sp]]; [|exact I|exact K].
+        destruct r1 as [z|[xe|sp]]; [| |exact K].
+        2:{ apply post_err_here; try assumption; [cbn [it_ok]; split; [exact Hr|exact I]|reflexivity]. }
         rewrite <- A in Hw, Ha.
         destruct (ctx_set_frames c1 x z _ _ Hw Ha) as (W2 & C2 & A2).
         eapply post_weaken; [| |apply (IH (SI r Iterate) _ (set_assoc x z own) base W2)].
@@ -766,13 +793,15 @@ Proof.
       * apply stmts_ok_row in Hrest. destruct Hrest as [Wd Hr].
         destruct (lift_row_eval G c d) as [c1 r1] eqn:E.
         destruct (lift_row_eval_ok _ _ _ _ Wd E) as (A & B & K).
-        destruct r1 as [w|[xe|sp]]; [|exact I|exact K].
+        destruct r1 as [w|[xe|sp]]; [| |exact K].
+        2:{ apply post_err_here; try assumption; [cbn [it_ok]; split; [exact Hr|exact I]|reflexivity]. }
         cbn [post]. rewrite A. split; [exact Hw|]. split; [exact B|]. split; [split; [exact Hr|exact I]|].
         split; [exact K|]. exists own. split; [apply ext_refl|]. apply frames_nil_intro; [reflexivity|]. rewrite A. exact Ha.
       * apply stmts_ok_loop in Hrest. destruct Hrest as (We & Hb & Hr).
         destruct (lift_eval G c e) as [c1 r1] eqn:E.
         destruct (lift_eval_ok _ _ _ _ We E) as (A & B & K).
-        destruct r1 as [z|[xe|sp]]; [|exact I|exact K].
+        destruct r1 as [z|[xe|sp]]; [| |exact K].
+        2:{ apply post_err_here; try assumption; [cbn [it_ok]; split; [exact Hr|exact I]|reflexivity]. }
         rewrite <- A in Hw, Ha.
         eapply post_weaken; [exact B|apply ext_refl|]. apply IH; [exact Hw| |].
         -- cbn [it_ok lbody]. split; assumption.
@@ -812,7 +841,7 @@ Proof.
     rewrite <- app_assoc in Ha. cbn [app] in Ha.
     assert (Hfi : frames_ok inner c g (own :: base)) by (exists fr1; split; assumption).
     pose proof (IH inner c g (own :: base) Hw Hinner Hfi) as Hp.
-    destruct (snext G f inner c) as [w l inner' c'|it'' c'|x c'|s|]; cbn [post] in Hp.
+    destruct (snext G f inner c) as [w l inner' c'|it'' c'|x inner' c'|s|]; cbn [post] in Hp.
     + destruct Hp as (W' & C' & Ok' & Gw & g' & Eg & fr1' & Ha' & Hb').
       cbn [post]. split; [exact W'|]. split; [exact C'|].
       split; [cbn [it_ok]; split; [exact Hrest|split; [exact Hbody|exact Ok']]|]. split; [exact Gw|].
@@ -823,7 +852,15 @@ Proof.
       eapply post_weaken; [exact C'|apply ext_refl|]. apply IH; [exact W'| |].
       * cbn [it_ok]. split; assumption.
       * eapply frames_one_intro; [reflexivity|apply Eg; exact Hg|exact Ha'].
-    + exact Hp.
+    + (* the body failed: the loop stays open around what is left of the body; its frame is
+         still there (nothing was popped) and still binds the loop variable *)
+      destruct x as [xe|sp]; [|exact Hp].
+      destruct Hp as (W' & C' & Ok' & g' & Eg & fr1' & Ha' & Hb').
+      cbn [post]. split; [exact W'|]. split; [exact C'|].
+      split; [cbn [it_ok]; split; [exact Hrest|split; [exact Hbody|exact Ok']]|].
+      exists own. split; [apply ext_refl|]. exists (fr1' ++ [g']). split.
+      * rewrite <- app_assoc. exact Ha'.
+      * cbn [loopvars rev]. apply Forall2_app; [exact Hb'|]. constructor; [apply Eg; exact Hg|constructor].
     + exact Hp.
     + exact I.
   - (* EndInner: the loop variable is bound in the frame of its loop *)
@@ -844,7 +881,9 @@ Proof.
     pose proof (frames_nil _ _ _ _ Hfr eq_refl) as Ha.
     destruct (lift_eval G c (wcond ws)) as [c1 r1] eqn:E.
     destruct (lift_eval_ok _ _ _ _ We E) as (A & B & K).
-    destruct r1 as [z|[xe|sp]]; [|exact I|exact K].
+    destruct r1 as [z|[xe|sp]]; [| |exact K].
+    2:{ apply post_err_here; try assumption; [|reflexivity].
+        cbn [it_ok]. split; [exact Hrest|split; [exact We|exact Hbody]]. }
     rewrite <- A in Hw, Ha.
     destruct (z =? 0)%Z; (eapply post_weaken; [exact B|apply ext_refl|]); (apply IH; [exact Hw| |]).
     + cbn [it_ok]. split; [exact Hrest|exact I].
@@ -855,7 +894,7 @@ Proof.
     destruct Hok as (Hrest & We & Hbody & Hinner).
     assert (Hfi : frames_ok inner c own base) by (destruct Hfr as [fr H]; exists fr; exact H).
     pose proof (IH inner c own base Hw Hinner Hfi) as Hp.
-    destruct (snext G f inner c) as [w l inner' c'|it'' c'|x c'|s|]; cbn [post] in Hp.
+    destruct (snext G f inner c) as [w l inner' c'|it'' c'|x inner' c'|s|]; cbn [post] in Hp.
     + destruct Hp as (W' & C' & Ok' & Gw & own' & Eo & fr' & Hf').
       cbn [post]. split; [exact W'|]. split; [exact C'|].
       split; [cbn [it_ok]; split; [exact Hrest|split; [exact We|split; [exact Hbody|exact Ok']]]|]. split; [exact Gw|].
@@ -864,7 +903,11 @@ Proof.
       eapply post_weaken; [exact C'|exact Eo|]. apply IH; [exact W'| |].
       * cbn [it_ok]. repeat (split; try assumption).
       * apply frames_nil_intro; [reflexivity|exact Ha'].
-    + exact Hp.
+    + destruct x as [xe|sp]; [|exact Hp].
+      destruct Hp as (W' & C' & Ok' & own' & Eo & fr' & Hf').
+      cbn [post]. split; [exact W'|]. split; [exact C'|].
+      split; [cbn [it_ok]; split; [exact Hrest|split; [exact We|split; [exact Hbody|exact Ok']]]|].
+      exists own'. split; [exact Eo|]. exists fr'. exact Hf'.
     + exact Hp.
     + exact I.
 Qed.
@@ -939,8 +982,8 @@ Lemma get_row_unfold : forall fuel st, get_row G tc fuel st =
       | NYield w l it' c' =>
           phase2 (with_iter_ctx st it' c' [ {| de_entries := w; de_line := l; de_update_output := true |} ])
       | NDone it' c' => GRNone (with_iter_ctx st it' c' [])
-      | NErr (XFErr x) c' => GRErr x (with_iter_ctx st (i_iter st) c' [])
-      | NErr (XFPanic s) _ => GRPanic s
+      | NErr (XFErr x) it' c' => GRErr x (with_iter_ctx st it' c' [])
+      | NErr (XFPanic s) _ _ => GRPanic s
       | NPanic s => GRPanic s
       | NOOF => GROOF
       end
@@ -948,13 +991,14 @@ Lemma get_row_unfold : forall fuel st, get_row G tc fuel st =
   end.
 Proof.
   intros fuel [c it oi no pv [|r0 rest0] lg]; unfold get_row, phase2; cbn [i_cache i_iter i_ctx]; [|reflexivity].
-  destruct (snext G fuel it c) as [w l it' c'|it' c'|[x|s] c'|s|]; reflexivity.
+  destruct (snext G fuel it c) as [w l it' c'|it' c'|[x|s] it' c'|s|]; reflexivity.
 Qed.
 
 Definition gr_post (r : getrow_result) : Prop :=
   match r with
   | GRNone st' | GRRow _ st' => Inv st'
-  | GRErr _ _ => True
+  (* also the state after an evaluation error: next() can be called again on it *)
+  | GRErr _ st' => Inv st'
   | GRPanic _ => False
   | GROOF => True
   end.
@@ -982,7 +1026,7 @@ Proof.
   2:{ apply phase2_post; [exact HI|]. rewrite Ec. discriminate. }
   destruct HI as (I1 & I2 & I3 & I4 & [own I5] & I6 & I7).
   pose proof (snext_post G fuel (i_iter st) (i_ctx st) own [] I6 I4 I5) as Hp.
-  destruct (snext G fuel (i_iter st) (i_ctx st)) as [w l it' c'|it' c'|[x|s] c'|s|]; cbn [post] in Hp;
+  destruct (snext G fuel (i_iter st) (i_ctx st)) as [w l it' c'|it' c'|[x|s] it' c'|s|]; cbn [post] in Hp;
     try exact I; try contradiction.
   - destruct Hp as (W' & C' & Ok' & Gw & own' & _ & F').
     apply phase2_post; [|cbn; discriminate].
@@ -994,6 +1038,11 @@ Proof.
     split; [constructor|]. split; [exact I2|]. split; [exact I3|].
     split; [exact Ok'|]. split; [exists own'; apply frames_nil_intro; assumption|].
     split; [exact W'|]. congruence.
+  - (* error item: the cache is empty, the iterator and the context are those of post *)
+    destruct Hp as (W' & C' & Ok' & own' & _ & F').
+    cbn [gr_post]. unfold Inv, with_iter_ctx. cbn [i_cache i_prev i_outidx i_iter i_ctx].
+    split; [constructor|]. split; [exact I2|]. split; [exact I3|].
+    split; [exact Ok'|]. split; [exists own'; exact F'|]. split; [exact W'|]. congruence.
 Qed.
 
 (* the error items Iterator::next can produce *)
@@ -1003,7 +1052,9 @@ Definition ierr_after_new (e : ierr DE) : Prop :=
 Definition it_post (r : item DE) : Prop :=
   match r with
   | ItNone st' | ItRow _ st' => Inv st'
-  | ItErr e _ => ierr_after_new e
+  (* the state that comes with an error item satisfies the invariant too: whatever the
+     caller does with the iterator after an error, it does not panic *)
+  | ItErr e st' => ierr_after_new e /\ Inv st'
   | ItPanic _ => False
   | ItOOF => True
   end.
@@ -1014,15 +1065,19 @@ Proof.
   pose proof (get_row_post fuel st HI) as Hp.
   destruct (get_row G tc fuel st) as [st1|row st1|x st1|s|]; cbn [gr_post] in Hp;
     try exact I; try contradiction; try exact Hp.
+  2:{ cbn [it_post]. split; [exact I|exact Hp]. }
   destruct (er_update_output row).
-  - destruct (D (i_log st1) (RW, er_inputs row)) as [e|outs]; [exact I|].
+  - destruct (D (i_log st1) (RW, er_inputs row)) as [e|outs].
+    { cbn [it_post]. split; [exact I|]. apply Inv_with_ctx_log; [reflexivity|reflexivity|exact Hp]. }
     destruct (extract_output_values G tc (i_nout st1) (i_outidx st1) outs
                 (ctx_set_outputs (i_ctx st1) (outs_map outs))) as [c2 r] eqn:E.
     destruct (extract_output_values_ok G _ _ _ _ _ _ (proj1 (proj2 (proj2 Hp))) E) as (A & B & K).
     cbn [ctx_set_outputs cvars calt] in A, B.
-    destruct r as [vals|e|s|]; [|exact K|contradiction|contradiction].
-    cbn [it_post]. apply Inv_with_ctx_log; assumption.
-  - destruct (D (i_log st1) (if w_default then RW else WO, er_inputs row)) as [e|outs]; [exact I|].
+    destruct r as [vals|e|s|]; [| |contradiction|contradiction].
+    + cbn [it_post]. apply Inv_with_ctx_log; assumption.
+    + cbn [it_post]. split; [exact K|]. apply Inv_with_ctx_log; assumption.
+  - destruct (D (i_log st1) (if w_default then RW else WO, er_inputs row)) as [e|outs].
+    { cbn [it_post]. split; [exact I|]. apply Inv_with_ctx_log; [reflexivity|reflexivity|exact Hp]. }
     cbn [it_post]. apply Inv_with_ctx_log; [reflexivity|reflexivity|exact Hp].
 Qed.
 
@@ -1072,6 +1127,7 @@ Theorem inext_error_items : forall st, Inv st -> forall fuel e st',
   e = IE_Runtime RT_WrongOutputOrder.
 Proof.
   intros st HI fuel e st' E. pose proof (inext_post fuel st HI) as H. rewrite E in H. cbn [it_post] in H.
+  destruct H as [H _].
   destruct e as [d|r]; [left; exists d; reflexivity|]. right.
   destruct r as [a b| |names|x]; cbn in H.
   - right. left. exists a, b. reflexivity.
@@ -1090,6 +1146,28 @@ Proof.
   destruct (inext G DE D w_default tc fuel st); try exact I; exact H.
 Qed.
 
+(* EVERY step preserves the invariant: also the one that returns an error item.  The state
+   that comes with the item is the iterator as the failed call left it (for an expression
+   error: the statement iterator of Stmt.v's NErr - the failing statement consumed, or the
+   while condition still to be evaluated, or the loop still open around what is left of its
+   body, with its frames and loop variables intact because nothing was popped). *)
+Theorem inext_inv_all : forall st fuel, Inv st ->
+  match inext G DE D w_default tc fuel st with
+  | ItRow _ st' | ItNone st' | ItErr _ st' => Inv st'
+  | ItPanic _ => False
+  | ItOOF => True
+  end.
+Proof.
+  intros st fuel HI. pose proof (inext_post fuel st HI) as H.
+  destruct (inext G DE D w_default tc fuel st); cbn [it_post] in H; try exact H. exact (proj2 H).
+Qed.
+
+Theorem inext_inv_after_error : forall st fuel e st', Inv st ->
+  inext G DE D w_default tc fuel st = ItErr e st' -> Inv st'.
+Proof.
+  intros st fuel e st' HI E. pose proof (inext_inv_all st fuel HI) as H. rewrite E in H. exact H.
+Qed.
+
 (* the states a caller can reach by calling next again and again (each call with any fuel),
    going on after a row and also after None *)
 Inductive reachable (st0 : istate) : istate -> Prop :=
@@ -1104,6 +1182,38 @@ Proof.
   intros st0 st H0 Hr. induction Hr as [|st fuel row st' _ IH E|st fuel st' _ IH E]; [exact H0| |].
   - pose proof (inext_post fuel st IH) as H. rewrite E in H. exact H.
   - pose proof (inext_post fuel st IH) as H. rewrite E in H. exact H.
+Qed.
+
+(* the same, for a caller that also goes on after error items *)
+Inductive reachable_e (st0 : istate) : istate -> Prop :=
+| reache_start : reachable_e st0 st0
+| reache_row : forall st fuel row st', reachable_e st0 st ->
+    inext G DE D w_default tc fuel st = ItRow row st' -> reachable_e st0 st'
+| reache_none : forall st fuel st', reachable_e st0 st ->
+    inext G DE D w_default tc fuel st = ItNone st' -> reachable_e st0 st'
+| reache_err : forall st fuel e st', reachable_e st0 st ->
+    inext G DE D w_default tc fuel st = ItErr e st' -> reachable_e st0 st'.
+
+Lemma reachable_reachable_e : forall st0 st, reachable st0 st -> reachable_e st0 st.
+Proof.
+  intros st0 st Hr. induction Hr as [|st fuel row st' _ IH E|st fuel st' _ IH E].
+  - apply reache_start.
+  - eapply reache_row; eassumption.
+  - eapply reache_none; eassumption.
+Qed.
+
+Theorem reachable_e_inv : forall st0 st, Inv st0 -> reachable_e st0 st -> Inv st.
+Proof.
+  intros st0 st H0 Hr.
+  induction Hr as [|st fuel row st' _ IH E|st fuel st' _ IH E|st fuel e st' _ IH E]; [exact H0| | |];
+    pose proof (inext_inv_all st fuel IH) as H; rewrite E in H; exact H.
+Qed.
+
+Theorem reachable_e_never_panics : forall st0, try_new DE D tc = NewOk st0 ->
+  forall st, reachable_e st0 st -> forall fuel s, inext G DE D w_default tc fuel st <> ItPanic s.
+Proof.
+  intros st0 E st Hr. apply inext_no_panic. eapply reachable_e_inv; [|exact Hr].
+  apply try_new_inv. exact E.
 Qed.
 
 Theorem C10_reachable_never_panics : forall st0, try_new DE D tc = NewOk st0 ->
@@ -1133,6 +1243,29 @@ Proof.
   destruct (inext G DE D w_default tc f st); cbn [it_post] in H; try tauto. apply IH. exact H.
 Qed.
 
+(* a run that goes on after error items as well *)
+Fixpoint run_panics_e (fuels : list nat) (st : istate) : Prop :=
+  match fuels with
+  | [] => False
+  | f :: r =>
+      match inext G DE D w_default tc f st with
+      | ItPanic _ => True
+      | ItRow _ st' | ItErr _ st' | ItNone st' => run_panics_e r st'
+      | ItOOF => False
+      end
+  end.
+
+Lemma run_e_from_inv : forall fuels st, Inv st -> ~ run_panics_e fuels st.
+Proof.
+  induction fuels as [|f r IH]; intros st HI; cbn [run_panics_e]; [tauto|].
+  pose proof (inext_inv_all st f HI) as H.
+  destruct (inext G DE D w_default tc f st); try tauto; apply IH; exact H.
+Qed.
+
+Theorem run_through_errors_never_panics : forall st0, try_new DE D tc = NewOk st0 ->
+  forall fuels, ~ run_panics_e fuels st0.
+Proof. intros st0 E fuels. apply run_e_from_inv. apply try_new_inv. exact E. Qed.
+
 Theorem C10_run_never_panics : forall st0, try_new DE D tc = NewOk st0 ->
   forall fuels, ~ run_panics fuels st0.
 Proof. intros st0 E fuels. apply run_from_inv. apply try_new_inv. exact E. Qed.
@@ -1154,3 +1287,6 @@ Print Assumptions C10_reachable_never_panics.
 Print Assumptions C10_run_never_panics.
 Print Assumptions inext_error_items.
 Print Assumptions C10_run_never_panics_n.
+Print Assumptions inext_inv_all.
+Print Assumptions reachable_e_never_panics.
+Print Assumptions run_through_errors_never_panics.
